@@ -219,6 +219,8 @@ class Poly:
     """polynomial with integer coefficients over opaque commutative symbols (free algebra):
     an exact abstract domain for code that only adds and multiplies opaque quantities"""
 
+    MAX_PRODUCTS = 4000000
+
     def __init__(self, terms=None):
         self.terms = {k: v for k, v in (terms or {}).items() if v != 0}
 
@@ -245,6 +247,9 @@ class Poly:
 
     def __mul__(self, o):
         o = Poly.of(o)
+        if len(self.terms) * len(o.terms) > Poly.MAX_PRODUCTS:
+            raise AnalysisBroken("poly: product of %d x %d terms exceeds the size budget (the expected "
+                                 "cancellations do not happen in the analysed code)" % (len(self.terms), len(o.terms)))
         t = {}
         for k1, v1 in self.terms.items():
             for k2, v2 in o.terms.items():
